@@ -24,15 +24,24 @@ def mk_cfg(k):
     return dict(peers=peers, attrs=attrs, vrfs=vrfs, pols=pols)
 
 def cfg_to_val(c):
-    return [c['peers'], c['attrs'], c['vrfs'], c['pols']]
+    def av(a):
+        a = list(a)
+        if len(a) < 7:
+            a = a + [0, None][len(a) - 5:]
+        return a[:6] + [[] if a[6] is None else [a[6]]]
+    return [c['peers'], [av(a) for a in c['attrs']], c['vrfs'], c['pols']]
 
 def act_coq(a):
     return {0: 'AAccept', 1: 'AReject'}.get(a[0]) or '(ASetNh %s)' % cN(a[1])
 
 def cfg_to_coq(c):
     peers = clist(['(%s, (%s, %s))' % (cN(p), cN(r), cbool(i)) for p, r, i in c['peers']])
-    attrs = clist(['(%s, {| a_pref := %s; a_llgrc := %s; a_nollgr := %s; a_rts := %s |})' %
-                   (cN(t), cN(p), cbool(l), cbool(n), clist([cN(x) for x in r])) for t, p, l, n, r in c['attrs']])
+    def a7(a):
+        a = list(a)
+        return a + [0, None][len(a) - 5:] if len(a) < 7 else a
+    attrs = clist(['(%s, {| a_pref := %s; a_llgrc := %s; a_nollgr := %s; a_rts := %s; a_clen := %s; a_oid := %s |})' %
+                   (cN(t), cN(p), cbool(l), cbool(n), clist([cN(x) for x in r]), cN(cl), copt(None if o is None else cN(o)))
+                   for t, p, l, n, r, cl, o in map(a7, c['attrs'])])
     vrfs = clist(['(%s, %s)' % (cN(i), clist([cN(x) for x in r])) for i, r in c['vrfs']])
     pols = clist([clist(['(%s, %s)' % (cN(p), act_coq(a)) for p, a in pol]) for pol in c['pols']])
     return '{| c_peers := %s; c_attrs := %s; c_vrfs := %s; c_pols := %s |}' % (peers, attrs, vrfs, pols)
@@ -88,7 +97,7 @@ def replay(reqs, fib, ref):
         if r[0] == 0:
             tbl = r[1][0] if r[1] else None
             net = tuple(r[2])
-            if net[0] == 1:
+            if net[0] in (1, 4):
                 continue                       # VPN NLRI in the main table: ignored by Handle::apply
             key = (tbl, net)
             if r[3]:
@@ -173,11 +182,11 @@ class Prop:
     def gen_ops(self, rng, n, flavour):
         ops = []
         peers = [1, 2, 3]
-        prefixes = [(0, 1), (0, 2), (1, 1), (1, 2)]
+        prefixes = [(0, 1), (0, 2), (1, 1), (1, 2), (3, 1), (4, 2)]
         if flavour in ('plain', 'v6'):
             prefixes = [(0, 1), (0, 1), (0, 2)]
         elif flavour == 'vpn':
-            prefixes = [(1, 1), (1, 1), (1, 2), (0, 1)]
+            prefixes = [(1, 1), (1, 1), (1, 2), (0, 1), (4, 2), (4, 1)] + ([(1, 12)] if rng.random() < 0.25 else [])
         toks_tied = [0, 1, 3] if flavour != 'llgr' else [0, 1, 2, 6]
         live = []       # (peer, sess, prefix, pid) inserted so far
         sess = {1: 0, 2: 0, 3: 0, 0: 0}
@@ -222,8 +231,119 @@ class Prop:
                 ops.append(('reset', rng.choice(peers)))
         return ops
 
+    # ---- classes enumerated on every run (each case carries its class in 'cls')
+    ECFG = dict(
+        peers=[[1, 1, 0], [2, 2, 0], [3, 3, 1], [4, 1, 0]],      # 3 is iBGP; 4 shares router id 1 with peer 1
+        # tok: pref, llgrc, nollgr, rts, clen, oid
+        attrs=[[10, 2, 0, 0, [1], 0, None], [22, 2, 0, 0, [1], 0, None],       # 22: same content, another Arc
+               [11, 0, 0, 0, [1], 0, None],                                     # higher LOCAL_PREF
+               [12, 1, 0, 0, [1], 0, None],                                     # shorter AS_PATH
+               [13, 3, 0, 0, [1], 0, None],                                     # worse ORIGIN
+               [14, 2, 1, 0, [1], 0, None],                                     # LLGR_STALE community
+               [15, 2, 0, 0, [1], 1, None],                                     # CLUSTER_LIST of one
+               [16, 2, 0, 0, [1], 0, 0], [17, 2, 0, 0, [1], 0, 5],             # ORIGINATOR_ID below / above every router id
+               [18, 2, 0, 1, [1], 0, None],                                     # NO_LLGR
+               [19, 2, 0, 0, [], 0, None], [20, 2, 0, 0, [2], 0, None],
+               [21, 2, 0, 0, [9, 8, 1], 0, None], [23, 2, 0, 0, [1, 2], 0, None],
+               [24, 2, 0, 0, [1], 2, None], [25, 4, 0, 0, [1], 0, None]],      # CLUSTER_LIST of two; ORIGIN incomplete
+        vrfs=[[5, [1]], [6, [2, 3]], [0, [1]], [7, [9, 2, 1]]],
+        pols=[[[2, [1]]], [[2, [2, 1]]], [[2, [2, 3]]], [[2, [2, 101]]], [[1, [1]], [2, [1]], [3, [1]]]])
+
+    def enum_cases(self):
+        E = self.ECFG
+        out = []
+        def add(cls, ops, shards=2):
+            out.append(dict(cfg=E, shards=shards, ops=ops, cls=cls))
+        nh = lambda a: [0, a] if a < 100 else [1, a]
+        ins = lambda peer, p, a, tok, pid=0, sess=0: ('ins', peer, sess, p, pid, None if a is None else (a if isinstance(a, list) else nh(a)), tok)
+        rem = lambda peer, p, pid=0, sess=0: ('rem', peer, sess, p, pid)
+        PF = [(0, 1), (3, 1), (1, 2), (4, 12)]
+        # T: every step of the tie key is in turn the only difference between two paths
+        steps = [('same', 2, 22), ('localpref', 2, 11), ('aspath', 2, 12), ('origin', 2, 13), ('origin2', 2, 25),
+                 ('llgr_comm', 2, 14), ('clen1', 2, 15), ('clen2', 2, 24), ('oid_low', 2, 16), ('oid_high', 2, 17),
+                 ('ibgp', 3, 10), ('same_rid', 4, 10)]
+        for P in PF:
+            for name, peer, tok in steps:
+                add('tie:%s:k%d:fwd' % (name, P[0]), [ins(1, P, 1, 10), ins(peer, P, 2, tok), rem(peer, P), ins(peer, P, 2, tok), rem(1, P)])
+                add('tie:%s:k%d:rev' % (name, P[0]), [ins(peer, P, 2, tok), ins(1, P, 1, 10), rem(1, P), ins(1, P, 3, 10), rem(peer, P)])
+            for name, opn in (('stale', 'mstale'), ('llgr', 'mllgr')):
+                add('tie:%s:k%d' % (name, P[0]), [ins(1, P, 1, 10), ins(2, P, 2, 10), (opn, 2), ins(2, P, 3, 10, 0, 1), (opn, 1), (opn, 2),
+                                                   ('dstale' if opn == 'mstale' else 'dllgr', 1), ('dstale' if opn == 'mstale' else 'dllgr', 2)])
+        # F: filtered / next-hop-invalid / GR-stale / LLGR-stale combinations on one member of a tied set of three
+        flagops = {'filt': [('pol', 1), ('reset', 2)], 'inv': [('nhv', 2, False)], 'stale': [('mstale', 2)], 'llgr': [('mllgr', 2)]}
+        undo = {'filt': [('pol', 0), ('reset', 2)], 'inv': [('nhv', 2, True)], 'stale': [], 'llgr': []}
+        names = sorted(flagops)
+        import itertools
+        for r in (1, 2, 3, 4):
+            for combo in itertools.combinations(names, r):
+                for P in ((0, 1), (1, 2)):
+                    ops = [ins(1, P, 1, 10), ins(2, P, 2, 10), ins(4, P, 3, 10)]
+                    for f in combo:
+                        ops += flagops[f]
+                    ops += [rem(1, P)]
+                    for f in combo:
+                        ops += undo[f]
+                    add('flags:%s:k%d' % ('+'.join(combo), P[0]), ops + [ins(1, P, 1, 10), rem(2, P)])
+        # N: nht_register: source x old next hop x new next hop
+        for sname, (peer, sess) in (('peer', (1, 0)), ('local', (0, 0)), ('kernel', (0, 1))):
+            for oname, old in (('absent', 'absent'), ('none', None), ('a', 1), ('b', 2), ('ll', [2, 101, 1])):
+                for nname, new in (('none', None), ('a', 1), ('v6', 101), ('ll', [2, 101, 2])):
+                    ops = [ins(2, (0, 1), 1, 10)]
+                    if old != 'absent':
+                        ops.append(ins(peer, (0, 1), old, 10, 0, sess))
+                    ops += [ins(peer, (0, 1), new, 22, 0, sess), rem(peer, (0, 1), 0, sess), rem(peer, (0, 1), 0, sess)]
+                    add('nht:%s:old_%s:new_%s' % (sname, oname, nname), ops)
+        # R: remove_route: absent prefix, absent path id, filtered path, best / non-best, last / not last
+        P = (0, 1)
+        add('remove:absent_prefix', [rem(1, P), ins(1, P, 1, 10), rem(1, (0, 2))])
+        add('remove:absent_pid', [ins(1, P, 1, 10), rem(1, P, 1), rem(2, P)])
+        add('remove:filtered', [('pol', 1), ins(2, P, 2, 10), ins(1, P, 1, 10), rem(2, P), rem(1, P)])
+        add('remove:best_not_last', [ins(1, P, 1, 11), ins(2, P, 2, 10), ins(4, P, 3, 10), rem(1, P)])
+        add('remove:nonbest', [ins(1, P, 1, 11), ins(2, P, 2, 10), rem(2, P)])
+        add('remove:addpath', [ins(1, P, 1, 10, 0), ins(1, P, 1, 10, 1), ins(1, P, 2, 10, 2), rem(1, P, 1), rem(1, P, 0), rem(1, P, 2)])
+        # P: peer-level operations on 0 / 1 / 2 / 3 paths sharing a next hop, in 1 / 2 families
+        for opn in ('drop', 'unreg', 'mstale', 'dstale', 'mllgr', 'dllgr', 'reset'):
+            add('peerop:%s:empty_table' % opn, [(opn, 1), ins(1, P, 1, 10)])
+            add('peerop:%s:other_peer' % opn, [ins(2, P, 1, 10), (opn, 1), rem(2, P)])
+            for n in (1, 2, 3):
+                pre = [ins(1, P, 1, 10, pid) for pid in range(n)] + [ins(2, P, 1, 18)]
+                seq = [(opn, 1)]
+                if opn in ('dstale', 'dllgr'):
+                    seq = [('mstale' if opn == 'dstale' else 'mllgr', 1), (opn, 1), (opn, 1)]
+                add('peerop:%s:%d_paths_shared_nh' % (opn, n), pre + seq + [ins(1, P, 1, 10, 0, 1)])
+            add('peerop:%s:four_families' % opn, [ins(1, (0, 1), 1, 18), ins(1, (1, 2), 1, 18), ins(1, (3, 1), 101, 18), ins(1, (4, 2), 101, 18),
+                                                  ins(2, (0, 1), 1, 10), ('mstale', 1) if opn == 'dstale' else ('mllgr', 1) if opn == 'dllgr' else ('pol', 0), (opn, 1)])
+        # S: soft_reset_in with import policies changing the disposition / the next hop
+        for pname, pol in (('reject', 1), ('setnh_same', 2), ('setnh_other', 3), ('setnh_v6', 4)):
+            for oname, old in (('a', 1), ('none', None), ('ll', [2, 101, 1])):
+                add('reset:%s:old_%s' % (pname, oname), [ins(2, P, old, 10), ins(1, P, 3, 10), ('pol', pol), ('reset', 2), ('reset', 2), ('pol', 0), ('reset', 2), rem(2, P)])
+        add('reset:stale_skipped', [ins(2, P, 1, 10), ('mstale', 2), ('pol', 3), ('reset', 2), ('dstale', 2)])
+        add('reset:insert_under_policy', [('pol', 3), ins(2, P, 1, 10), ('pol', 1), ins(2, P, 1, 10), ('pol', 0), ('reset', 2), rem(2, P)])
+        # V: reachability reports: before / after the insert, repeated, for each next-hop form
+        for fname, form, a in (('v4', [0, 1], 1), ('v6', [1, 101], 101), ('ll', [2, 101, 1], 101)):
+            add('nhv:%s:after_insert' % fname, [ins(1, P, form, 10), ins(2, P, 2, 10), ('nhv', a, False), ('nhv', a, False), ('nhv', a, True), ('nhv', a, True)])
+            add('nhv:%s:before_insert' % fname, [('nhv', a, False), ins(1, P, form, 10), ins(2, P, form, 10), ('nhv', a, True), rem(1, P)])
+            add('nhv:%s:no_path' % fname, [('nhv', a, True), ('nhv', a, False), ins(2, P, 2, 10), ('nhv', a, True)])
+            add('nhv:%s:replace_while_unreachable' % fname, [ins(1, P, form, 10), ('nhv', a, False), ins(1, P, 2, 10), ins(1, P, form, 10), ('nhv', a, True)])
+        # VRF: route targets of the best path against the VRFs' import sets, both VPN families
+        for P in ((1, 2), (4, 2)):
+            for tok in (10, 19, 20, 21, 23):
+                add('vrf:rts_tok%d:k%d' % (tok, P[0]), [ins(1, P, 1, tok), ins(2, P, 2, 10), rem(1, P), rem(2, P)])
+            add('vrf:importable_to_not_to_importable:k%d' % P[0], [ins(2, P, 2, 10), ins(1, P, 1, 19, 0), ins(1, P, 1, 20), ins(1, P, 1, 10), rem(1, P)])
+            add('vrf:best_by_originator:k%d' % P[0], [ins(2, P, 2, 20), ins(1, P, 1, 10), ins(4, P, 3, 16), rem(4, P)])
+            # C20-3 (known): two route distinguishers, one inner prefix
+            Q = (P[0], P[1] + 10)
+            add('vrf:two_rds:k%d' % P[0], [ins(1, P, 1, 10), ins(2, Q, 2, 10), rem(2, Q), rem(1, P)])
+            add('vrf:two_rds_one_importable:k%d' % P[0], [ins(1, P, 1, 10), ins(2, Q, 2, 19), rem(2, Q)])
+        return out
+
     def gen_cases(self, rng, tier):
-        cases = []
+        cases = self.enum_cases()
+        # K: every request sequence of length <= 4 over register/unregister of two addresses
+        import itertools
+        for d in (1, 2, 3, 4):
+            for seq in itertools.product([[1, 1], [2, 1], [1, 2], [2, 2]], repeat=d):
+                cases.append(dict(kind='ref', reqs=[list(x) for x in seq], cls='kref:len%d' % d))
         n = 1200 if tier == 'quick' else 12000
         for k in range(n):
             flavour = ['mixed', 'plain', 'vpn', 'llgr', 'v6', 'mixed'][k % 6]
@@ -281,10 +401,19 @@ class Prop:
         if obs == [-1] or case.get('kind') == 'ref':
             return obs
         out = []
+        # VRF-local prefixes fed by two VPN prefixes (known class C20-3): within one operation their
+        # requests come in hash-map order, which is not modelled
+        seen, shared = {}, set()
+        for o in case['ops']:
+            if o[0] == 'ins' and o[3][0] in (1, 4):
+                lk = (o[3][0] + 1, o[3][1] % 10)
+                seen.setdefault(lk, set()).add(tuple(o[3]))
+                if len(seen[lk]) > 1:
+                    shared.add(lk)
         for reqs, view in obs:
             def key(r):
                 if r[0] == 0:
-                    return (0, r[1][0] if r[1] else -1, r[2][0], r[2][1], 0)
+                    return (0, r[1][0] if r[1] else -1, r[2][0], r[2][1], tuple(r[3]) if (r[1] and tuple(r[2]) in shared) else 0)
                 return (1, r[1], 0, 0, r[0])        # per address: registrations before unregistrations
             rq = sorted(reqs, key=key)              # stable: per (table, prefix) the order of the Applies is kept
             out.append([rq, sorted(view, key=lambda d: d[0])])
@@ -311,14 +440,21 @@ class Prop:
         cfg = c['cfg']
         pinfo = {p: (r, i) for p, r, i in cfg['peers']}
         pinfo[0] = (0, 1)
-        ainfo = {t: (p, l, n, r) for t, p, l, n, r in cfg['attrs']}
+        ainfo = {}
+        for a in cfg['attrs']:
+            a = list(a) + [0, None][len(a) - 5:] if len(a) < 7 else list(a)
+            ainfo[a[0]] = tuple(a[1:])          # pref, llgrc, nollgr, rts, clen, oid
         fib, ref = {}, {}
         unreach = set()
+        vpn_seen = {}                           # VRF-local prefix -> VPN prefixes inserted so far
         for k, (o, (reqs, view)) in enumerate(zip(c['ops'], obs)):
             if o[0] == 'nhv':
                 (unreach.discard if o[2] else unreach.add)(o[1])
+            if o[0] == 'ins' and o[3][0] in (1, 4):
+                vpn_seen.setdefault((o[3][0] + 1, o[3][1] % 10), set()).add(tuple(o[3]))
             replay(reqs, fib, ref)
             want_fib = {}
+            vrf_want = {}                       # (table, local prefix) -> list of (vpn prefix, importable, nhs)
             cnt = {}
             for net, allp, el in view:
                 net = tuple(net)
@@ -333,34 +469,51 @@ class Prop:
                 if not el:
                     continue
                 def skey(e):
+                    # the decision steps before the router-id step, in order
                     peer, sess, nh, tok, stale, llgr = e
-                    return (1 if (llgr or ainfo[tok][1]) else 0, ainfo[tok][0], pinfo.get(peer, (peer, 0))[1], stale)
+                    a = ainfo[tok]
+                    return (1 if (llgr or a[1]) else 0, a[0], pinfo.get(peer, (peer, 0))[1], stale, a[4])
                 m = min(skey(e) for e in el)
                 ecmp = [e for e in el if skey(e) == m]
                 nhs = sorted(set(e[2][0][1] for e in ecmp if e[2]))
-                if net[0] == 0:
+                if net[0] in (0, 3):
                     want_fib[(None, net)] = nhs
                 else:
-                    # the best path: minimal under the full order; ties on the router id as well are left to the implementation
-                    fk = lambda e: skey(e) + (pinfo.get(e[0], (e[0], 0))[0],)
+                    # the best path: minimal under the full order (ORIGINATOR_ID, else router id, last);
+                    # full ties are left to the implementation
+                    def fk(e):
+                        oid = ainfo[e[3]][5]
+                        return skey(e) + (oid if oid is not None else pinfo.get(e[0], (e[0], 0))[0],)
                     mf = min(fk(e) for e in el)
                     bests = [e for e in el if fk(e) == mf]
                     for tid, imp in cfg['vrfs']:
                         if tid == 0:
                             continue
                         oks = set(bool(set(ainfo[b[3]][3]) & set(imp)) for b in bests)
-                        if len(oks) == 1:
-                            want_fib[(tid, (2, net[1]))] = nhs if oks.pop() else []
-                        else:
-                            want_fib[(tid, (2, net[1]))] = None
-            # (1) replayed FIB = ECMP next-hop set, for every prefix and VRF table
+                        vrf_want.setdefault((tid, (net[0] + 1, net[1] % 10)), []).append(
+                            (net, oks.pop() if len(oks) == 1 else None, nhs))
+            # (1) replayed FIB = ECMP next-hop set, for every prefix
             for key in set(fib) | set(want_fib):
-                w = want_fib.get(key, [])
-                if w is None:
+                if key[0] is not None:
                     continue
+                w = want_fib.get(key, [])
                 got = sorted(set(fib.get(key, [])))
                 if got != w:
                     return 'step %d: FIB table %s prefix %s holds next hops %s, the best path and its ties have %s' % (k, key[0], list(key[1]), got, w)
+            # (1b) ... and in every VRF table: what each importable VPN prefix demands, nothing otherwise
+            for key in set(x for x in fib if x[0] is not None) | set(vrf_want):
+                got = sorted(set(fib.get(key, [])))
+                demands = vrf_want.get(key, [])
+                shared = ' [shared VRF-local prefix: %s]' % sorted(vpn_seen.get(key[1], [])) if len(vpn_seen.get(key[1], [])) > 1 else ''
+                if any(ok is None for _, ok, _ in demands):
+                    continue
+                imp_d = [(n, nh) for n, ok, nh in demands if ok]
+                for n, nh in imp_d:
+                    if got != nh:
+                        return 'step %d: FIB table %s prefix %s holds next hops %s, the best path of %s is importable and it and its ties have %s%s' % (
+                            k, key[0], list(key[1]), got, list(n), nh, shared)
+                if not imp_d and got:
+                    return 'step %d: FIB table %s prefix %s holds next hops %s, no VPN prefix has an importable best path%s' % (k, key[0], list(key[1]), got, shared)
             # (2) outstanding registrations = peer-learned paths using the address
             for a in set(ref) | set(cnt):
                 if ref.get(a, 0) != cnt.get(a, 0):
@@ -368,6 +521,10 @@ class Prop:
         return None
 
     def in_known_class(self, kf, c, obs, why):
+        if kf['id'] == 'C20-3':
+            # the class: the history has inserted two VPN prefixes that differ only in the route
+            # distinguisher (same family, same inner prefix), and the failing VRF entry is theirs
+            return '[shared VRF-local prefix' in (why or '')
         return False
 
     def nontrivial_key(self, c, obs):
@@ -392,10 +549,15 @@ class Prop:
 
     def classify(self, c, obs):
         if c.get('kind') == 'ref':
-            return ['kernel_refcount_sequence']
+            return ['kernel_refcount_sequence'] + (['enum_' + c['cls']] if c.get('cls') else [])
         tags = ['len_%s' % ('1-4' if len(c['ops']) <= 4 else '5-12' if len(c['ops']) <= 12 else '13+'), 'shards_%d' % c['shards']]
         for o in c['ops']:
             tags.append('op_' + o[0])
+            if o[0] in ('ins', 'rem'):
+                tags.append('prefix_kind_%d' % o[3][0])
+        if c.get('cls'):
+            tags.append('enum_' + c['cls'])
+            tags.append('enumclass_' + c['cls'].split(':')[0])
         if obs != [-1]:
             if any(r[0] == 0 and len(r[3]) >= 2 for reqs, _ in obs for r in reqs): tags.append('ecmp_install')
             if any(r[0] == 0 and r[1] for reqs, _ in obs for r in reqs): tags.append('vrf_request')
